@@ -1745,11 +1745,22 @@ def _cls(p):
 
 
 def _f_posonly_tuple_default(case, obs, fail):
-    """a positional-only fixed-length Tuple parameter with a default: nargs=N makes it required, the default is unusable"""
+    """a positional-only fixed-length Tuple parameter with a default: nargs=N makes it required, the default is unusable.
+    Two faces: (a) with too few tokens the parse exits 2 (clause must-call); (b) with exactly N tokens that were meant for
+    EARLIER positional parameters, argparse gives them all to the tuple (its nargs=N is matched greedily against
+    nargs='?' neighbours): the omitted tuple parameter receives them instead of its signature default."""
+    if case["op"] != "call.main":
+        return False
+    omitted = [p for p in _main_params(case)
+               if p["kind"] == "posOnly" and _cls(p) == "tuple" and p["dflt"] is not None and p.get("given") is None]
+    if not omitted:
+        return False
     f = _front(fail)
-    return (case["op"] == "call.main" and fail.get("clause") == "must-call" and f.get("o") == "exit" and f.get("code") == 2
-            and any(p["kind"] == "posOnly" and _cls(p) == "tuple" and p["dflt"] is not None and p.get("given") is None
-                    for p in _main_params(case)))
+    if fail.get("clause") == "must-call":
+        return f.get("o") == "exit" and f.get("code") == 2
+    if fail.get("clause") == "signature-default":
+        return any(str(fail.get("detail", "")).startswith(f"omitted parameter {p['name']}:") for p in omitted)
+    return False
 
 
 def _f_mutable_default(case, obs, fail):
